@@ -352,25 +352,41 @@ def reconstruct(events, raised_flags=None):
     ('use',) ('yield',) ('raise',) ('nest', ab, [items]) ('try', [items]) and trace
     the list of observation vectors in the model's event encoding."""
     ops, cur_stack, trace = [], [[]], []
+
+    def raising(it):
+        return it[0] == "raise" or (it[0] == "nest" and (it[1] is not None or bool(it[2]) and raising(it[2][-1])))
+
+    def seal(body):
+        # something happens AFTER an item that ended with an exception: a handler (in the library or in
+        # user code) caught it there and execution went on
+        if body and raising(body[-1]):
+            body[-1] = ("try", [body[-1]])
+
     for ev in events:
         kind, st = ev[0], ev[-1]
         if kind == "enter_ok":
+            seal(cur_stack[-1])
             cur_stack.append([])
             trace.append([1] + st)
         elif kind == "use":
+            seal(cur_stack[-1])
             cur_stack[-1].append(("use",))
             trace.append([4] + st)
         elif kind == "yield":
+            seal(cur_stack[-1])
             cur_stack[-1].append(("yield",))
         elif kind in ("exit_ok", "exit_abort", "exit_skipped"):
             body = cur_stack.pop() if len(cur_stack) > 1 else []
             exc = ev[-2]
             if exc:
                 body.append(("raise",))
+            else:
+                seal(body)
             ab = ev[1] if kind != "exit_ok" else None
             cur_stack[-1].append(("nest", ab, body))
             trace.append([2 if kind == "exit_ok" else 5] + st)
         elif kind in ("enter_abort", "new_abort"):
+            seal(cur_stack[-1])
             cur_stack[-1].append(("nest", ev[1], []))
             trace.append([3] + st)
         elif kind == "op_end":
@@ -382,6 +398,8 @@ def reconstruct(events, raised_flags=None):
             body = cur_stack[0]
             if raised:
                 body.append(("raise",))
+            else:
+                seal(body)
             ops.append(("try", body))
             cur_stack = [[]]
             trace.append([0] + st + [int(raised), int(ev[2])])
@@ -390,6 +408,8 @@ def reconstruct(events, raised_flags=None):
             body = cur_stack.pop()
             cur_stack[-1].append(("nest", None, body + [("raise",)]))
         ops += cur_stack[0]
+    if raised_flags is False and ops:
+        seal(ops)           # the thread ended normally: an exception seen last was caught
     return ops, trace
 
 
@@ -512,6 +532,43 @@ def make_classes():
     return Leaf, Node
 
 
+def make_subclasses():
+    """plain (undecorated) subclasses, one and two levels, that override inherited defaults with
+    module-bearing values: a bare module, list/dict/tuple holding modules, a spec instance holding modules.
+    Their defaults are looked up through the MRO (Attr.lookup_default_value) and copied on construction,
+    reset_<attr>, del and reset()."""
+    import math
+    Node = CLS["Node"]
+
+    class Sub1(Node):
+        mods = [math, sys]
+        extra = sys
+        table = {"m": raw("Leaf", ms=[[math]])}
+
+    class Sub2(Sub1):
+        extra = ([sys], {"m": math}, raw("Leaf", ms=[os, [sys]]))
+        kids = [raw("Leaf", ms=[math])]
+
+    CLS["Sub1"], CLS["Sub2"] = Sub1, Sub2
+    RAW_DEFAULTS["Sub1"] = RAW_DEFAULTS["Sub2"] = RAW_DEFAULTS["Node"]
+
+
+def sub_defaults_ok(o):
+    """o was (re)set to the defaults of its class: modules by identity, containers fresh copies"""
+    cls = type(o)
+    d = object.__getattribute__(o, "__dict__")
+    for a in ("mods", "extra", "table", "kids"):
+        owner = next((k for k in cls.__mro__ if k is not CLS["Node"] and a in k.__dict__), None)
+        if owner is None or owner.__mro__[0] is CLS["Node"] or not issubclass(owner, CLS["Node"]) or owner is CLS["Node"]:
+            continue
+        want = owner.__dict__[a]
+        if a not in d or not same_copy(want, d[a]):
+            return False
+        if isinstance(want, (list, dict)) and d[a] is want:
+            return False
+    return True
+
+
 CLS = {}
 RAW_DEFAULTS = {"Leaf": dict(m=sys, ms=[], n=0),
                 "Node": dict(kids=[], table={}, tag="a", mods=[sys], extra=None)}
@@ -593,6 +650,17 @@ def op_pool(rng):
         "deepcopy_inst": lambda c: copy.deepcopy(c["n"]),
         "protect_list": lambda c: mutation.protect_via_deepcopy([sys, [c["n"]], os]),
         "inplace_kid": lambda c: c["n"].with_kid(Leaf(), _inplace=True),
+        "sub1_new": lambda c: c.__setitem__("n", CLS["Sub1"]()),
+        "sub2_new": lambda c: c.__setitem__("n", CLS["Sub2"]()),
+        "sub2_new_args": lambda c: c.__setitem__("n", CLS["Sub2"](mods=[], extra=None, table={}, kids=[])),
+        "sub1_new_part": lambda c: c.__setitem__("n", CLS["Sub1"](mods=[os], tag="q")),
+        "reset_table": lambda c: c.__setitem__("n", c["n"].reset_table()),
+        "reset_mods_inplace": lambda c: c["n"].reset_mods(_inplace=True),
+        "reset_extra_inplace": lambda c: c["n"].reset_extra(_inplace=True),
+        "del_extra": lambda c: delattr(c["n"], "extra"),
+        "del_mods": lambda c: delattr(c["n"], "mods"),
+        "del_table": lambda c: delattr(c["n"], "table"),
+        "reset_all": lambda c: c.__setitem__("n", c["n"].reset()),
         "new_flaky": lambda c: c.__setitem__("n", Node(kids=[Leaf(ms=[Flaky(), sys])], extra=[Flaky(), {"k": Flaky()}],
                                                        table={"a": Leaf(ms=[[Flaky()]])})),
         "with_flaky": lambda c: c.__setitem__("n", c["n"].with_extra([Flaky(), sys, Flaky()])),
@@ -662,7 +730,7 @@ def gen_seq_cases(rng, tier):
     """-> list of dicts(kind, hist, user, created0, inject, boom)"""
     quick = tier == "quick"
     names = list(op_pool(None))
-    starters = ["new_default", "new_kids", "new_deep"]
+    starters = ["new_default", "new_kids", "new_deep", "sub1_new", "sub2_new", "sub2_new_args"]
     cases = []
     # plain histories
     for i in range(60 if quick else 400):
@@ -740,6 +808,24 @@ def conc_values(name):
         return lambda: ("protect", [Probe(sys), Probe(sys, boom=True), Probe(sys)])
     if name == "tiny":
         return lambda: ("protect", [sys])
+    if name == "sub_new":        # constructor of a plain subclass whose overridden defaults hold modules
+        return lambda: ("call", lambda: (CLS["Sub1"](), CLS["Sub2"]()), lambda r: all(sub_defaults_ok(o) for o in r))
+    if name == "sub_reset":
+        def mk():
+            o = raw("Sub2", mods=[], extra=None, table={}, kids=[])
+            return ("call", lambda: o.reset_mods().reset_extra().reset_table().reset_kids(), sub_defaults_ok)
+        return mk
+    if name == "sub_del":
+        def mk():
+            o = raw("Sub1", mods=[], extra=None, table={})
+
+            def run():
+                del o.mods
+                del o.extra
+                o.reset_table(_inplace=True)
+                return o
+            return ("call", run, sub_defaults_ok)
+        return mk
     if name == "flaky":      # copy of a spec instance aborted half way: an attribute value raises
         return lambda: ("deepcopy", Node(kids=[Leaf(ms=[Probe(sys)])], extra=[Probe(os), Flaky(always=True)],
                                          table={"a": Leaf(ms=[sys])}))
@@ -820,8 +906,11 @@ def _run_schedule(names, user, created0, choose):
 
     def fn(i):
         def run():
-            how, v = inputs[i]
-            r = mutation.protect_via_deepcopy(v) if how == "protect" else copy.deepcopy(v)
+            how, v = inputs[i][0], inputs[i][1]
+            if how == "call":
+                r = v()
+            else:
+                r = mutation.protect_via_deepcopy(v) if how == "protect" else copy.deepcopy(v)
             results[i] = r
             return r
         return run
@@ -874,12 +963,13 @@ def _run_schedule(names, user, created0, choose):
     outs, planned = [], []
     for i, w in enumerate(S.workers):
         raised = w.exc is not None
-        ok = (not raised) and w.state == "finished" and same_copy(inputs[i][1], results[i])
+        ok = (not raised) and w.state == "finished" and \
+            (inputs[i][2](results[i]) if inputs[i][0] == "call" else same_copy(inputs[i][1], results[i]))
         outs.append([int(raised), int(ok)])
         planned.append(isinstance(w.exc, (Boom, FlakyErr)))
     progs = []
     for w in S.workers:
-        items, _ = reconstruct(LOG.events(w.ident))
+        items, _ = reconstruct(LOG.events(w.ident), raised_flags=(w.exc is not None))
         if w.exc is not None:
             items = items + [("raise",)]
         progs.append(items)
@@ -1106,6 +1196,7 @@ def setup():
     LINE_MAP = build_line_map()
     if not CLS:
         CLS["Leaf"], CLS["Node"] = make_classes()
+        make_subclasses()
     sys.setswitchinterval(1e-4)
 
 
@@ -1205,14 +1296,15 @@ def main(tier, replay=None):
     if quick:
         conf = [(["flat", "flat"], False, False, 2, 1, 40), (["nested", "flat"], False, True, 2, 12, 25),
                 (["flat2", "tiny"], True, False, 1, 1, 10), (["boom", "flat"], False, False, 1, 1, 10),
-                (["flaky", "flat"], False, False, 1, 1, 12)]
+                (["flaky", "flat"], False, False, 1, 1, 12), (["sub_new", "flat"], False, False, 1, 1, 12)]
     else:
         conf = [(["flat", "flat"], False, False, 2, 1, 150), (["nested", "flat"], False, True, 2, 1, 240),
                 (["inst", "flat2"], False, False, 2, 2, 200), (["flat2", "tiny"], True, False, 2, 1, 60),
                 (["boom", "flat"], False, False, 2, 1, 90), (["boom", "nested"], False, True, 1, 1, 30),
                 (["flat", "flat", "flat"], False, False, 2, 2, 300), (["tiny", "nested", "flat"], False, True, 2, 12, 200),
                 (["flat", "tiny", "boom"], True, False, 2, 4, 60), (["flaky", "flat"], False, False, 2, 2, 120),
-                (["flat", "inst"], False, True, 2, 3, 120)]
+                (["flat", "inst"], False, True, 2, 3, 120),
+                (["sub_new", "flat"], False, False, 2, 3, 120), (["sub_reset", "sub_del", "flat"], False, True, 1, 1, 60)]
     enum_stats = []
     for names, user, created0, max_pre, stride2, budget in conf:
         rs, nplans = enumerate_schedules(names, user, created0, max_pre, rng, budget, stride2)
@@ -1221,7 +1313,9 @@ def main(tier, replay=None):
                            "max_preemptions": max_pre, "pair_stride": stride2, "plans": nplans[0],
                            "plans_run_within_time_budget": nplans[1],
                            "distinct_schedules": len(rs)})
-    yconf = [(["flat", "inst"], False, True, 3), (["flat", "flaky"], False, False, 2),
+    yconf = [(["flat", "sub_new"], False, True, 2), (["flat2", "sub_reset"], False, False, 2),
+             (["flat", "sub_del"], True, True, 1),
+             (["flat", "inst"], False, True, 3), (["flat", "flaky"], False, False, 2),
              (["flaky_in_list", "flat2"], False, True, 2), (["flat", "inst"], True, False, 2)]
     if not quick:
         yconf += [(["nested", "inst"], False, False, 3), (["flaky", "flaky_in_list"], False, True, 3),
@@ -1236,7 +1330,8 @@ def main(tier, replay=None):
     for i in range(150 if quick else 2500):
         names = rng.choice([["flat", "flat"], ["nested", "flat2"], ["inst", "flat"], ["flat", "tiny", "nested"],
                             ["boom", "flat2"], ["flat2", "flat", "flat"], ["flat", "inst"], ["flaky", "flat2"],
-                            ["flaky_in_list", "inst"]])
+                            ["flaky_in_list", "inst"], ["sub_new", "flat"], ["sub_reset", "sub_del"],
+                            ["flat2", "sub_del"]])
         if quick and len(names) > 2:
             names = names[:2]
         r = run_schedule(names, i % 5 == 4, i % 2 == 0, random_chooser(rng, rng.choice([0.1, 0.3, 0.6])))
